@@ -4,6 +4,7 @@ package c18
 import (
 	"encoding/json"
 	"fmt"
+	"github.com/btcsuite/btcutil/base58"
 	"sort"
 	"strings"
 	"sync/atomic"
@@ -154,6 +155,36 @@ func Run(r *core.Run) {
 			}
 		}
 		docs = append(docs, M{"publicKey": []any{rich}}, M{"publicKey": []any{okp}}, M{"publicKey": []any{rsa}}, M{"publicKey": []any{rich, okp, rsa}, "service": []any{svcA}})
+	}
+	// Ed25519 keys in JWK form whose base58 text has an unusual head: a leading 'z' (the multibase prefix of base58-btc, about one key
+	// in a thousand), 'zz', and a leading '1' (a zero byte); converted to base58 (2018) and multibase (2020) they are these very bytes
+	{
+		found := map[string]bool{}
+		for i := 0; i < 400000 && len(found) < 3; i++ {
+			k := keys.New("Ed25519", i)
+			x, _ := k.XY()
+			b58 := base58.Encode(x)
+			head := ""
+			switch {
+			case strings.HasPrefix(b58, "zz"):
+				head = "zz"
+			case strings.HasPrefix(b58, "z"):
+				head = "z"
+			case strings.HasPrefix(b58, "1"):
+				head = "1"
+			}
+			if head == "" || found[head] {
+				continue
+			}
+			found[head] = true
+			j := k.JWKMap()
+			jwk := M{"kty": j["kty"], "crv": j["crv"], "x": j["x"]}
+			docs = append(docs,
+				M{"publicKey": []any{M{"id": "b58-" + head, "type": "Ed25519VerificationKey2018", "purposes": []any{"authentication"}, "publicKeyJwk": jwk}}},
+				M{"publicKey": []any{M{"id": "mb-" + head, "type": "Ed25519VerificationKey2020", "purposes": []any{"assertionMethod"}, "publicKeyJwk": jwk}}})
+			r.Class("ed25519-base58-head-" + head)
+		}
+		r.Extra["ed25519_base58_heads_found"] = len(found)
 	}
 	r.Extra["documents"] = len(docs)
 	type optCase struct {
